@@ -152,7 +152,7 @@ pub fn run(ctx: &Ctx) {
     // Random programs, hostile profile: most of them fail somewhere.
     let mut cfg = gen::GenCfg::balanced();
     cfg.sloppy = 6;
-    let n = ctx.n(12_000, 1_000_000);
+    let n = ctx.n(25_000, 1_000_000);
     let via = if ctx.tier == Tier::Quick { Via::Cli } else { Via::Fast };
     ctx.proptest_tapes("random_failing", n, 700, via, None, |t| {
         let density = if t.chance(1, 2) { 12 } else { 0 };
